@@ -37,6 +37,8 @@ class Checked:
     error: Optional[str] = None
     unusable: list = field(default_factory=list)
     undefined: list = field(default_factory=list)  # (path, role, var, pos, kind, arg, sign)
+    support_extras: list = field(default_factory=list)  # (path, role, var, pos, [keys outside the D-table])
+    n_supports: int = 0
 
     def env(self, p: Path) -> E.Env:
         return E.Env(p.n1)
@@ -91,9 +93,43 @@ def check_config(prog: Program, cfg: Config, compare=True) -> Checked:
         try:
             _compare(ck)
             _definedness(ck)
+            _supports(ck)
         except AnalysisError as e:
             ck.error = f"comparison: {e}"
     return ck
+
+
+def _supports(ck: Checked) -> None:
+    from .spec.dtable import allowed_set, is_param
+
+    cfg = ck.cfg
+    for p in ck.paths:
+        if p.raised is not None:
+            continue
+        nz = M.make_normalizer(cfg)
+        env = E.Env(p.n1)
+        mapping, _ = M.assumption_substitution(p.assumptions, nz)
+        for role, outs in p.outputs.items():
+            if role not in ("SELF", "ORG"):
+                continue
+            for var, t in outs.items():
+                if not E.is_term(t):
+                    continue
+                t = M.subst(t, mapping)
+                try:
+                    poss = E.positions(E.shape(t, env), env)
+                except E.ShapeError:
+                    continue
+                for pos in poss:
+                    ck.n_supports += 1
+                    try:
+                        sup = M.support(t, pos, env, nz)
+                    except E.ShapeError:
+                        continue
+                    A = allowed_set(cfg, role, var, pos)
+                    extra = [k for k in sup if not is_param(k) and k not in A]
+                    if extra:
+                        ck.support_extras.append((p.path, role, var, pos, extra))
 
 
 def _definedness(ck: Checked) -> None:
